@@ -308,21 +308,7 @@ times are (component plug: any plug that does not raise on bumps with an invaria
 single repository) -/
 theorem report_total {π β} (h : Hist π) (hT : h.Topo) (pl : Plug π β) (J : β → Prop) (hpl : PlugTotal pl J)
     (hrefs : ∀ r ∈ h.refs, r.2 < h.commits.length) : ∃ rep, report h pl = .ok rep := by
-  have hheads : ∀ b ∈ branchesOf h, b.head < h.commits.length := by
-    intro b hb
-    have hb' := (mem_sortBy _ _ _).mp hb
-    simp only [releaseBranches, List.mem_flatMap] at hb'
-    obtain ⟨r, hr, hbr⟩ := hb'
-    have : b.head = r.2 := by
-      simp only [releaseBranch, List.mem_append] at hbr
-      rcases hbr with h1 | h1
-      · split at h1
-        · simp at h1; rw [h1]
-        · cases h1
-      · split at h1
-        · simp at h1; rw [h1]
-        · cases h1
-    rw [this]; exact hrefs r hr
+  have hheads := heads_of_refs hrefs
   obtain ⟨g, hg, _⟩ := rgraph_total hT hpl hheads
   exact ⟨g.branches.map (repBranch g.rcs), by simp only [report, hg]⟩
 
